@@ -9,7 +9,7 @@ are parametrised by them); every other statement is compared with the transcribe
 scripts of sends / throws / close on fake motors (.name, .parent=None; position from `locate`, `.position` or
 `read`); `read` / `locate` messages of the wrappers are answered with a reading / location carrying the number of
 the script; the same case goes through the Lean models; canonical traces are compared.  The real rel_* scans
-(rel_scan, rel_list_scan, rel_grid_scan, rel_list_grid_scan, rel_log_scan, rel_spiral*, rel_adaptive_scan) are consumed
+(rel_scan, rel_list_scan, rel_grid_scan, rel_list_grid_scan, rel_log_scan, rel_spiral, rel_spiral_fermat, rel_spiral_square; not rel_adaptive_scan, which needs live detector values) are consumed
 the same way with exceptions thrown at the k-th message; on them only the oracle is evaluated.
 Oracle: the property on the implementation's trace.
 """
@@ -69,7 +69,15 @@ def extract(ctx):
 
 
 class Motor(B.FakeDev):
-    pass
+    # `Movable` + `Readable` for bluesky's argument parsing; never called: there is no RunEngine
+    def set(self, value):  # noqa: A003
+        raise AssertionError("no RunEngine here")
+
+    def read(self):
+        raise AssertionError("no RunEngine here")
+
+    def describe(self):
+        raise AssertionError("no RunEngine here")
 
 
 class PosMotor(Motor):
@@ -79,9 +87,6 @@ class PosMotor(Motor):
 
 
 class LocMotor(Motor):
-    def set(self, value):  # noqa: A003
-        raise AssertionError("no RunEngine here")
-
     def locate(self):
         raise AssertionError("no RunEngine here")
 
@@ -167,6 +172,14 @@ def canon_msg(m, world):
 
 def drive(case, script, instrument=False):
     """-> (raw trace, origins, log, rels) ; rels[i] = the `rel` kwarg of a set message (None otherwise)"""
+    import contextlib
+    import io
+
+    with contextlib.redirect_stdout(io.StringIO()):
+        return _drive(case, script, instrument)
+
+
+def _drive(case, script, instrument):
     world = World(case)
     log = [] if instrument else None
     gen = build(case, world, log)
@@ -408,6 +421,9 @@ def _stub_log(case, script, trace, origins):
 
 
 def run(ctx, model=True):
+    import warnings
+
+    warnings.simplefilter("ignore")
     G.quiet_unraisable()
     res = C.Result()
     res.rule = (
@@ -448,8 +464,137 @@ def run(ctx, model=True):
     return res
 
 
+class Det:
+    def __init__(self, name):
+        self.name = name
+        self.parent = None
+
+
+def _consume(plan, motors, answers, throw_at=None, exc=None):
+    """drive a real plan without a RunEngine: every message answered (reads of motors with readings from
+    `answers[motor]` in turn, reads of detectors with a constant reading, everything else None); at message
+    number `throw_at` (1-based) `exc` is thrown instead.  -> (list of (command, obj name, arg0, group), outcome)"""
+    import contextlib
+    import io
+
+    out = []
+    count = {m.name: 0 for m in motors}
+    g = iter(plan)
+    outcome = None
+    with contextlib.redirect_stdout(io.StringIO()):
+        try:
+            m = next(g)
+            k = 0
+            while True:
+                k += 1
+                arg0 = m.args[0] if m.args else None
+                out.append((m.command, getattr(m.obj, "name", None), arg0, m.kwargs.get("group")))
+                if throw_at == k:
+                    m = g.throw(exc)
+                elif m.command == "read" and m.obj in motors:
+                    seq = answers[m.obj.name]
+                    v = seq[min(count[m.obj.name], len(seq) - 1)]
+                    count[m.obj.name] += 1
+                    m = g.send({m.obj.name: {"value": v, "timestamp": 0.0}})
+                elif m.command == "read":
+                    m = g.send({m.obj.name: {"value": 1.0, "timestamp": 0.0}})
+                else:
+                    m = g.send(None)
+        except StopIteration:
+            outcome = ["ret"]
+        except BaseException as e:  # noqa: BLE001
+            outcome = ["raise", type(e).__name__]
+    return out, outcome
+
+
 def _real_rel_plans(ctx):
-    return C.Result()
+    """the real rel_* plans of bluesky.plans on fake motors, an exception thrown at every message in turn (oracle only)"""
+    import bluesky.plans as bp
+    from bluesky.utils import RequestStop
+
+    res = C.Result()
+    rng = ctx.rng
+    det = Det("det")
+
+    def specs(m0, m1):
+        a, b = rng.randrange(-5, 0), rng.randrange(1, 6)
+        n = rng.randrange(2, 5)
+        return [
+            ("rel_scan", [m0], lambda: bp.rel_scan([det], m0, a, b, n), lambda: bp.scan([det], m0, a, b, n)),
+            ("rel_scan2", [m0, m1], lambda: bp.rel_scan([det], m0, a, b, m1, b, a, n), lambda: bp.scan([det], m0, a, b, m1, b, a, n)),
+            ("rel_list_scan", [m0], lambda: bp.rel_list_scan([det], m0, [a, 0, b]), lambda: bp.list_scan([det], m0, [a, 0, b])),
+            ("rel_grid_scan", [m0, m1], lambda: bp.rel_grid_scan([det], m0, a, b, 2, m1, 0, b, n), lambda: bp.grid_scan([det], m0, a, b, 2, m1, 0, b, n)),
+            ("rel_list_grid_scan", [m0, m1], lambda: bp.rel_list_grid_scan([det], m0, [a, b], m1, [0, 1, 2]), lambda: bp.list_grid_scan([det], m0, [a, b], m1, [0, 1, 2])),
+            ("rel_log_scan", [m0], lambda: bp.rel_log_scan([det], m0, 0, 1, n), lambda: bp.log_scan([det], m0, 0, 1, n)),
+            ("rel_spiral", [m0, m1], lambda: bp.rel_spiral([det], m0, m1, 2, 2, 1, 4), lambda: bp.spiral([det], m0, m1, 0, 0, 2, 2, 1, 4)),
+            ("rel_spiral_fermat", [m0, m1], lambda: bp.rel_spiral_fermat([det], m0, m1, 2, 2, 1, 1.0), lambda: bp.spiral_fermat([det], m0, m1, 0, 0, 2, 2, 1, 1.0)),
+            ("rel_spiral_square", [m0, m1], lambda: bp.rel_spiral_square([det], m0, m1, 2, 2, 3, 3), lambda: bp.spiral_square([det], m0, m1, 0, 0, 2, 2, 3, 3)),
+        ]
+
+    m0, m1 = Motor(0), PosMotor(1, 40)
+    a1, a2 = rng.randrange(50, 150), rng.randrange(200, 300)
+    answers = {m0.name: [a1, a2, 0], m1.name: [0]}
+    init_rel = {m0.name: a1, m1.name: 40}
+    init_reset = {m0.name: a2, m1.name: 40}
+    for name, motors, mk_rel, mk_abs in specs(m0, m1):
+        names = [m.name for m in motors]
+        try:
+            abs_trace, _ = _consume(mk_abs(), motors, {m0.name: [0], m1.name: [0]})
+            full, outcome = _consume(mk_rel(), motors, answers)
+        except Exception as e:  # noqa: BLE001
+            res.notes.append(f"{name}: could not be consumed without a RunEngine ({type(e).__name__}: {e})")
+            continue
+        if outcome != ["ret"]:
+            res.notes.append(f"{name}: the undisturbed plan does not run to its end without a RunEngine ({outcome}); skipped")
+            continue
+        offsets = {n: [t[2] for t in abs_trace if t[0] == "set" and t[1] == n] for n in names}
+        ks = list(range(1, len(full) + 1))
+        if ctx.tier != "thorough" and not ctx.deep and len(ks) > 40:
+            ks = sorted(rng.sample(ks, 40))
+        for k in [None] + ks:
+            for exc in ([None] if k is None else [RuntimeError("boom")] + ([RequestStop()] if k % 5 == 0 else [])):
+                trace, outcome = _consume(mk_rel(), motors, answers, k, exc)
+                case = {"real_plan": name, "throw_at": k, "exc": type(exc).__name__ if exc else None, "a1": a1, "a2": a2}
+                res.seen(case, k is not None)
+                res.count("cases:real:" + name)
+                # recorded by the reset layer: read-kind motors once their second query was answered, .position motors once set
+                recorded = []
+                seen_reads = {n: 0 for n in names}
+                first_set = {}
+                for i, t in enumerate(trace):
+                    answered = not (k is not None and i + 1 == k)
+                    if t[0] == "read" and t[1] in names and t[1] not in first_set:
+                        if answered:
+                            seen_reads[t[1]] += 1
+                            if seen_reads[t[1]] == 2 and t[1] == m0.name and t[1] not in recorded:
+                                recorded.append(t[1])
+                    if t[0] == "set" and t[1] in names and t[1] not in first_set:
+                        first_set[t[1]] = i
+                        if t[1] == m1.name and t[1] not in recorded:
+                            recorded.append(t[1])
+                expect_reset = [("set", n, init_reset[n]) for n in recorded] + [("wait", None, None)]
+                body = trace
+                thrown_in_reset = False
+                if outcome is not None and (k is None or k <= len(trace) - len(expect_reset)):
+                    tail = [(t[0], t[1], t[2]) for t in trace[len(trace) - len(expect_reset) :]]
+                    if tail != expect_reset:
+                        res.violations.append(C.Violation(f"{name}:devices-not-reset-to-initial-positions", f"{name} (exception at message {k}): the plan ended with {outcome} but its last messages are {tail}, expected {expect_reset}", dict(case, trace=[list(map(str, t)) for t in trace])))
+                    else:
+                        groups = {t[3] for t in trace[len(trace) - len(expect_reset) :]}
+                        if len(groups) != 1 or None in groups:
+                            res.violations.append(C.Violation(f"{name}:reset-not-in-one-group", f"{groups}", case))
+                        body = trace[: len(trace) - len(expect_reset)]
+                else:
+                    thrown_in_reset = True
+                # every set of the scan = initial position + the absolute scan's value
+                for n in names:
+                    got = [t[2] for t in body if t[0] == "set" and t[1] == n]
+                    if thrown_in_reset and got:
+                        got = got[: len(offsets[n])]
+                    want = [init_rel[n] + o for o in offsets[n]][: len(got)]
+                    if len(got) > len(offsets[n]) or any(abs(float(x) - float(y)) > 1e-9 for x, y in zip(got, want)):
+                        res.violations.append(C.Violation(f"{name}:set-is-not-initial-plus-offset", f"{name} (exception at message {k}): {n} commanded to {got}, expected {want} (initial {init_rel[n]} + {offsets[n]})", dict(case, trace=[list(map(str, t)) for t in trace])))
+    return res
 
 
 def run_impl_only(ctx):
